@@ -135,18 +135,28 @@ func (r *Run) modelViolation(kind, msg string, cond *Term) (Violation, bool) {
 		return Violation{}, false
 	}
 	v := Violation{Msg: msg, Kind: kind, Choices: append([]string{}, r.Choices...), Ints: append([]int{}, r.Ints...), Vars: map[string]uint64{},
-		Decision: append([]int{}, r.Trace...), Threads: r.Sch.active, CrashAt: r.FS.CrashAt}
+		Decision: append([]int{}, r.Trace...), Threads: r.Sch.active, CrashAt: r.FS.CrashAt, CrashKind: r.FS.CrashKind}
 	for _, t := range r.Inputs {
 		if x, ok := vals[t]; ok {
 			v.Vars[t.name] = x
 		}
 	}
 	if r.CrashImage != nil {
+		// the image handed to the native replay is recomputed from the model's inputs with the real checksum
+		// functions (see ground.go); bytes that cannot be grounded keep the solver's value
 		v.Crash = map[string]string{}
+		g := newGrounder(v.Vars)
 		for _, n := range names {
 			bs := make([]byte, len(r.CrashImage[n]))
 			for i, b := range r.CrashImage[n] {
-				bs[i] = byte(vals[r.numTerm(b.(Num))])
+				t := r.numTerm(b.(Num))
+				g.ok = true
+				x := g.eval(t)
+				if !g.ok {
+					x = vals[t]
+					v.Ungrounded++
+				}
+				bs[i] = byte(x)
 			}
 			v.Crash[n] = hex.EncodeToString(bs)
 		}
